@@ -794,6 +794,12 @@ fn lex_source_into_buffer<'source: 'tokens, 'tokens: 'buffer, 'buffer>(
 						closed = true;
 						break;
 					}
+					else if x == b'\r' && matches!(iter.peek(), Some((_, b'\n')))
+					{
+						// The carriage return is part of the line ending.
+						location.end -= 1;
+						break;
+					}
 					else if x == b' '
 					{
 						push_byte(b' ');
@@ -1023,6 +1029,12 @@ fn lex_source_into_buffer<'source: 'tokens, 'tokens: 'buffer, 'buffer>(
 					else if x == opening_quote
 					{
 						closed = true;
+						break;
+					}
+					else if x == b'\r' && matches!(iter.peek(), Some((_, b'\n')))
+					{
+						// The carriage return is part of the line ending.
+						location.end -= 1;
 						break;
 					}
 					else if x == b' '
